@@ -422,7 +422,10 @@ def attrib(F, res):
     # compile_validity -> ttl / validity_interval_start
     tbp = roles.builder_of(F, "tx3_cardano", "::TransactionBody")
     cvp = roles.feeder_of(F, tbp, "::TransactionBody", "ttl")
-    cv = F.fns[cvp]
+    # (the validity feeder with the compiler crate's helpers inlined: each bound may be computed by a `slot_bound(..)` helper)
+    def _cvh(t, callee):
+        return callee["crate"] == "tx3_cardano" and not callee.get("impl_trait") and callee["path"].rsplit("::", 1)[0] != "tx3_cardano::coercion" and len(callee["blocks"]) <= 80
+    cv = mir.inline_calls(F, F.fns[cvp], want=_cvh, depth=2)
     duv = mir.DefUse(cv)
     tup = [(bi, s) for bi, si, s in mir.stmts(cv) if s["rv"]["k"] == "agg" and "tuple" in s["rv"] and len(s["rv"]["ops"]) == 2 and bi in mir.live_blocks(cv)]
     good = False
